@@ -29,7 +29,7 @@ from acryo._types import nm
 from acryo._dask import compute, DaskTaskList
 from acryo.loader import _misc
 from acryo.backend import Backend, AnyArray
-from acryo.pipe._classes import ImageProvider
+from acryo.pipe._classes import ImageProvider, ImageConverter
 
 if TYPE_CHECKING:
     from dask.delayed import Delayed
@@ -461,6 +461,7 @@ class LoaderGroup(Generic[_K, _L]):
             _mask = mask(_loaders[0].scale)
             output_shape = _mask.shape
         else:
+            # NOTE: the mask of an ImageConverter is created from the average of each group
             _mask = 1
             output_shape = None
 
@@ -474,9 +475,12 @@ class LoaderGroup(Generic[_K, _L]):
             output_shape=output_shape,
         )
         out = DataFrameDict()
+        _scales = {key: loader.scale for key, loader in self}
         for key, img in imgs.items():
             fsc_all: dict[str, np.ndarray] = {}
             freq = np.zeros(0, dtype=np.float32)
+            if isinstance(mask, ImageConverter):
+                _mask = mask.convert((img[0, 0] + img[0, 1]) / 2, _scales[key])
             for i in range(n_set):
                 img0, img1 = img[i]
                 freq, fsc = _utils.fourier_shell_correlation(
